@@ -16,7 +16,16 @@ ground truth).
      census, contexts, FIFO bookkeeping kept by the driver).  Every behaviour
      is then drained (all transfers completed) and "nobody left behind" checked.
   4. TLC -simulate: long random event sequences replayed the same way.
-  5. Application level (driver e2e-queue): a real `thru host --max-receivers M`
+  5. specs/DispatchLoop.tla: the scheduler loop at the grain of its lock
+     regions (one iteration = one region; read-loop calls and transfer tails
+     interleave between iterations).  TLC exhaustive for (Max, running at the
+     start) configurations: Capacity, WorkConserving, FIFO; switch CountOnce
+     (free slots read once) refuted.  Every transition replayed on the real
+     maybeStartTransfers: dispatcher goroutines - the driver's and the real
+     runTransfer tails - park at host.emit.start, the driver releases the one
+     TLC moved; queue / slots / dispatcher state compared after each step.
+     Driver admission-stress runs the same loop free.
+  6. Application level (driver e2e-queue): a real `thru host --max-receivers M`
      and M+2 real `thru join` processes started together over the real
      thruserv; every join must finish with the identical tree, and on the
      host's hook trace the transfers between host.emit.start and
@@ -92,12 +101,43 @@ def run(tier, seed):
             v.violation(sig, viol.get('replay'))
         else:
             print("NOTE C12: a multi-receiver session showed an anomaly that belongs to another property: %s" % sig)
+    # the scheduler loop at the grain of its lock regions: several dispatchers (read-loop calls, transfer tails)
+    # interleaved between their iterations - DispatchLoop.tla exhaustive, every transition replayed on the real loop
+    # with the dispatcher goroutines parked at host.emit.start; the switch CountOnce must be refuted
+    dl_runs, dl_tot = [], dict(behaviours=0, steps=0, drift=0)
+    work = vlib.scratch("c12dl-")
+    for mx, busy in ((1, 1), (2, 2), (3, 1)) if tier == "quick" else ((1, 1), (2, 1), (2, 2), (3, 1), (3, 2), (3, 3)):
+        nq, nd = (4, 4) if tier == "quick" else (5, 5)
+        c = dict(Max=mx, NQ=nq, D=nd, Callers=2, Busy=busy, CountOnce=False, Track=True)
+        ep = os.path.join(work, "dl_%d_%d.ndjson" % (mx, busy))
+        rd = vlib.run_tlc('DispatchLoop', dict(constants=c, invariants=['Capacity', 'WorkConserving', 'FIFO'], view='View', action_constraint='Emit'),
+                          workers=4, edges_path=ep, timeout=900)
+        if rd['violated']:
+            raise vlib.HarnessTrouble("DispatchLoop.tla violates its invariants:\n" + rd['violation_text'][:1500])
+        rn = vlib.run_tlc('DispatchLoop', dict(constants=dict(c, CountOnce=True), invariants=['Capacity'], view='View'), workers=4, want_edges=False, expect_violation=True)
+        if not rn['violated']:
+            raise vlib.HarnessTrouble("negative control CountOnce not refuted (Max=%d Busy=%d)" % (mx, busy))
+        dr = vlib.run_vh_sharded(['dispatch-loop', '-edges', ep, '-max', str(mx), '-nq', str(nq), '-busy', str(busy)], 4, timeout=1200)
+        for viol in dr['violations']:
+            v.violation(viol['sig'], viol.get('replay'))
+        dl_runs.append(dict(Max=mx, Busy=busy, NQ=nq, dispatchers=nd, states=rd['distinct'], transitions=rd['edges'], behaviours_replayed=dr['behaviours'], drift=dr['drift'], count_once_refuted=rn['violated']))
+        for k in dl_tot:
+            dl_tot[k] += dr[k]
+        if dr['drift']:
+            v.notes.append("dispatch-loop drift: " + str(dr['drift_samples'][:1])[:500])
+    # the same loop free-running: batches of transfers ending together while the read loop keeps admitting receivers
+    ast = vlib.run_vh_sharded(['admission-stress', '-rounds', '400' if tier == "quick" else '4000', '-seed', str(seed)], 4, timeout=900)
+    for viol in ast['violations']:
+        v.violation(viol['sig'], viol.get('replay'))
+    if dl_tot['drift']:
+        print("DRIFT C12: %d behaviours where the real scheduler loop differs from DispatchLoop.tla (not a verdict)" % dl_tot['drift'])
     if tot['drift']:
         print("DRIFT C12: %d behaviours where the real SnapshotSender differs from Admission.tla (not a verdict)" % tot['drift'])
     v.coverage = dict(
         states=tot['states'], transitions=tot['transitions'],
         traces_validated_against_impl=tot['behaviours'],
         samples=samples[:6], exhaustive=True,
+        dispatch_loop=dict(runs=dl_runs, behaviours=dl_tot['behaviours'], steps=dl_tot['steps'], free_running_rounds=ast['behaviours']),
         real_binary_sessions=dict(scenarios=eq['behaviours'], outcomes=eq['extra'].get('outcomes')),
         tlc=dict(exhaustive_runs=tlc_runs, simulate=dict(traces_per_max=nsim, depth=dsim, states=sim_states),
                  negative_configs_refuted=refuted),
